@@ -314,6 +314,13 @@ func ruleUnsubPrecond(c *Ctx) {
 		c.inst(1)
 		sp := &Spec{InlineHelpers: true}
 		sp.Classify = func(t *Tracer, fr *Frame, in ssa.Instruction) []Ev {
+			if cl, isC := in.(*ssa.Call); isC {
+				if cf := calleeFunc(&cl.Call); cf != nil && cf.Pkg() != nil && cf.Pkg().Path() == "encoding/json" && cf.Name() == "Unmarshal" && len(cl.Call.Args) == 2 {
+					if mi, isMI := cl.Call.Args[1].(*ssa.MakeInterface); isMI && strings.HasSuffix(mi.X.Type().String(), "rpc.UnsubscribeRequest") {
+						return []Ev{{Kind: "decode-params", Stop: true}}
+					}
+				}
+			}
 			call, ok := isCallTo(in, ur)
 			if !ok {
 				return nil
@@ -381,6 +388,22 @@ func ruleUnsubPrecond(c *Ctx) {
 		}
 		if n == 0 && bad == "" {
 			bad = "no path reaches UnsubscribeResource"
+		}
+		// the default: params that carry no count unsubscribe once
+		if bad == "" {
+			dflt := false
+			for _, path := range tr.Paths {
+				if hasKind(path, "decode-params") {
+					for _, e := range path {
+						if e.Kind == "unsub" && e.Note == "const" {
+							dflt = true
+						}
+					}
+				}
+			}
+			if !dflt {
+				bad = "no path on which params were decoded reaches UnsubscribeResource with the default count 1: an unsubscribe whose params carry no count is refused instead of releasing one subscription"
+			}
 		}
 		c.check(bad == "", fnName(fn), "unsubscribe count is 1 or a decoded value that passed the positivity test", p.Pos(fn.Pos()), fmt.Sprintf("%d paths reach UnsubscribeResource: constant 1 or guarded by !(count <= 0)", n), bad)
 	}
@@ -589,6 +612,54 @@ func ruleFanoutSet(c *Ctx) {
 			ok := false
 			seen := map[ssa.Value]bool{}
 			var walk func(v ssa.Value, d int) bool
+			var structField func(v ssa.Value, idx int, d int) bool
+			structField = func(v ssa.Value, idx int, d int) bool {
+				if d > 10 {
+					return false
+				}
+				switch x := v.(type) {
+				case *ssa.Call:
+					if sf := x.Call.StaticCallee(); sf != nil && p.isRepoFn(sf) {
+						for _, in := range instrsOf(sf) {
+							if r, ok := in.(*ssa.Return); ok && len(r.Results) == 1 && structField(r.Results[0], idx, d+1) {
+								return true
+							}
+						}
+					}
+				case *ssa.Phi:
+					for _, e := range x.Edges {
+						if structField(e, idx, d+1) {
+							return true
+						}
+					}
+				case *ssa.UnOp:
+					al, ok := x.X.(*ssa.Alloc)
+					if !ok || x.Op != token.MUL {
+						return false
+					}
+					for _, r := range *al.Referrers() {
+						switch y := r.(type) {
+						case *ssa.FieldAddr:
+							if y.Field != idx {
+								continue
+							}
+							for _, r2 := range *y.Referrers() {
+								if st, ok := r2.(*ssa.Store); ok && st.Addr == ssa.Value(y) {
+									delete(seen, st.Val)
+									if walk(st.Val, d+1) {
+										return true
+									}
+								}
+							}
+						case *ssa.Store:
+							if y.Addr == ssa.Value(al) && structField(y.Val, idx, d+1) {
+								return true
+							}
+						}
+					}
+				}
+				return false
+			}
 			walk = func(v ssa.Value, d int) bool {
 				if d > 10 || seen[v] {
 					return false
@@ -645,9 +716,19 @@ func ruleFanoutSet(c *Ctx) {
 							}
 						}
 					}
+				case *ssa.Field:
+					// a result struct (getResponseOutcome{rs, waiting}): follow the field to what was stored in it
+					return structField(x.X, x.Field, d+1)
 				case *ssa.UnOp:
 					if f, _ := fieldLoad(x); f == fSubs {
 						return true
+					}
+					if fa, ok := x.X.(*ssa.FieldAddr); ok && x.Op == token.MUL {
+						if al, ok := fa.X.(*ssa.Alloc); ok {
+							if structField(&ssa.UnOp{Op: token.MUL, X: al}, fa.Field, d+1) {
+								return true
+							}
+						}
 					}
 					switch a := x.X.(type) {
 					case *ssa.Alloc:
@@ -793,10 +874,29 @@ func ruleValidPatterns(c *Ctx) {
 				fld, _ = fieldLoad(args[1])
 			}
 			target := ""
-			if mc, ok := args[2].(*ssa.MakeClosure); ok {
-				for _, cl := range callsIn(mc.Fn.(*ssa.Function)) {
-					if cf := calleeFunc(cl.Common()); cf != nil && strings.HasPrefix(cf.Name(), "handleReset") {
-						target = cf.Name()
+			mRes := p.Method("rescache.EventSubscription.handleResetResource")
+			mAcc := p.Method("rescache.EventSubscription.handleResetAccess")
+			// the visitor: a closure literal calling the handler, or the handler itself as a method expression / value
+			for _, a := range args[2:] {
+				var vf *ssa.Function
+				switch x := stripConv(a).(type) {
+				case *ssa.MakeClosure:
+					vf = x.Fn.(*ssa.Function)
+				case *ssa.Function:
+					vf = x
+				}
+				if vf == nil {
+					continue
+				}
+				if o, isM := vf.Object().(*types.Func); isM && (o == mRes || o == mAcc) {
+					target = map[bool]string{true: "handleResetResource", false: "handleResetAccess"}[o == mRes]
+				}
+				for _, cl := range callsIn(vf) {
+					switch cf := calleeFunc(cl.Common()); {
+					case cf != nil && cf == mRes:
+						target = "handleResetResource"
+					case cf != nil && cf == mAcc:
+						target = "handleResetAccess"
 					}
 				}
 			}
